@@ -335,6 +335,12 @@ Qed.
 End CMP_PROG.
 
 (* ================================================================ component level: all appended chunks, head offsets *)
+Lemma cmp_out_off_nz : forall x c, In c (rf_out x) -> rc_off c <> 0.
+Proof.
+  intros x c H. unfold rf_out in H.
+  pose proof (proj1 (cmp_scan_off_nz (wm_rlog (wm_b_raw (wm_fx_base x))))) as HF. rewrite Forall_forall in HF. exact (HF c H).
+Qed.
+
 Theorem cmp_comp_fsr_structure_lemma : forall summ1 summN d pos0 x0 ops st,
   (0 < pos0)%Z -> sg_id d < 256 -> 0 < sg_spd d ->
   (dt_bits (sg_dtype d) < 8 \/ dt_bits (sg_dtype d) mod 8 = 0) ->
@@ -386,17 +392,16 @@ Theorem cmp_comp_fsr_structure_lemma : forall summ1 summN d pos0 x0 ops st,
           rc_meta c = wm_meta (sg_id d) 0 /\ nth_error (rf_blocks d rf_bs0 ops) 0 = Some blk /\
           rc_pay c = wm_fsr_data_payload (rf_t0 ops) (N.of_nat (length blk)) w (wm_pack w blk))).
 Proof.
-  intros summ1 summN d pos0 x0 ops st Hpos0 Hsid Hspd Hw Hfill Hg1 Hg2 Hg3 Hcons Hfresh Hopen Hpy x w head.
-  destruct (rf_fsr_refines summ1 summN d pos0 x0 ops st Hpos0 Hsid Hspd Hw Hfill Hg1 Hg2 Hg3 Hfresh Hopen Hpy)
-    as (cs & Hout & _ & HF2 & Hflt & _ & Hheads).
-  fold x in Hout, Hflt, Hheads.
+  intros summ1 summN d pos0 x0 ops st Hpos0 Hsid Hspd Hw Hfill Hg1 Hg2 Hg3 Hcons Hfresh Hopen Hpy.
+  pose proof (rf_fsr_refines summ1 summN d pos0 x0 ops st Hpos0 Hsid Hspd Hw Hfill Hg1 Hg2 Hg3 Hfresh Hopen Hpy) as Href.
+  pose proof (cmp_setup d (dt_bits (sg_dtype d) <=? 8) ops Hspd) as Hset. cbv zeta in Hset.
+  unfold py_srun in Hpy.
+  intros x w head. cbv zeta in Href. fold x in Href. clearbody x.
+  destruct Href as (cs & Hout & _ & HF2 & Hflt & _ & Hheads).
   exists cs. split; [exact Hout|]. split; [exact Hflt|].
   assert (Hnz : Forall (fun c => rc_off c <> 0) cs).
-  { apply Forall_forall. intros c Hc.
-    pose proof (proj1 (cmp_scan_off_nz (wm_rlog (wm_b_raw (wm_fx_base x))))) as HF. rewrite Forall_forall in HF. apply HF.
-    change (In c (rf_out x)). rewrite Hout. apply in_or_app. left. apply in_rev. rewrite rev_involutive. exact Hc. }
-  destruct (cmp_setup d (w <=? 8) ops Hspd) as (_ & _ & _ & [(EB & Eplan)|(pre & n & req & Eplan & Hpre & Hn & _)]);
-    unfold py_srun in Hpy; fold w in Hpy; rewrite Eplan in Hpy.
+  { apply Forall_forall. intros c Hc. apply (cmp_out_off_nz x). rewrite Hout. apply in_or_app. left. apply in_rev. rewrite rev_involutive. exact Hc. }
+  destruct Hset as (_ & _ & _ & [(EB & Eplan)|(pre & n & req & Eplan & Hpre & Hn & _)]); rewrite Eplan in Hpy.
   - destruct (cmp_py_run_nil _ _ _ _ Hpy) as (Ed & Eh). rewrite Ed in HF2. inversion HF2 as [E1|]. 
     split; [intros i c Hi; destruct i; discriminate Hi|]. split; [intros c []|].
     left. split; [reflexivity|]. intros L HL. unfold head. rewrite (Hheads L HL). unfold py_head_get. rewrite Eh.
@@ -405,7 +410,7 @@ Proof.
     split; [exact (cmp_adjacent_core d pos0 (rf_t0 ops) cs _ st pre n req Hcons Hpos0 Hpre Hn Hpy HF2 H4096)|].
     split; [exact (cmp_index_targets_core d pos0 (rf_t0 ops) cs _ st pre n req Hcons Hpos0 Hpre Hn Hpy HF2 Hnz H4096)|].
     right.
-    destruct (cmp_heads_core d pos0 (rf_t0 ops) cs _ st pre n req Hcons Hpos0 Hpre Hn Hpy HF2 Hnz H4096) as (T & HT & Habove & Hlev & Hzero).
+    destruct (cmp_heads_core d pos0 (rf_t0 ops) cs _ st pre n req Hcons Hpos0 Hpre Hn Hpy HF2 H4096) as (T & HT & Habove & Hlev & Hzero).
     exists T. split; [exact HT|]. split; [|split].
     + intros L (HL1 & HL2). destruct (Habove L HL1) as (Hh & Hno). split; [|exact (Hno HL2)].
       unfold head. rewrite (Hheads L HL2), Hh. reflexivity.
@@ -413,4 +418,15 @@ Proof.
       split; [unfold head; rewrite (Hheads L ltac:(lia)); symmetry; exact Hoff|exact Rest].
     + destruct Hzero as (c & blk & Hc & Hoff & Rest). exists c, blk. split; [exact Hc|].
       split; [unfold head; rewrite (Hheads 0%nat ltac:(lia)); symmetry; exact Hoff|exact Rest].
+Qed.
+
+(* ================================================================ when no block is omitted *)
+(* a sample width above 8 bits (no automatic omission of constant blocks) and no jls_wr_fsr_omit_data(enable) call:
+   every block is stored, so the `om` of cmp_c01_lemma is false at every position *)
+Lemma cmp_no_omission_lemma : forall d ops, 8 < dt_bits (sg_dtype d) -> cmp_no_omit ops ->
+  Forall (fun b => snd b = false)
+         (py_blocks (py_plan (dt_bits (sg_dtype d) <=? 8) (py_sdf (rf_pd d)) 0 (rf_script d rf_bs0 ops))).
+Proof.
+  intros d ops Hw Hno. replace (dt_bits (sg_dtype d) <=? 8) with false by (symmetry; apply N.leb_gt; exact Hw).
+  apply cmp_py_blocks_noreq. apply cmp_plan_big_noreq. apply cmp_script_no_omit. exact Hno.
 Qed.
